@@ -954,6 +954,15 @@ def evaluate(t, env, memo=None):
             r = chr(evaluate(t.args[0], env, memo))
         elif op == "ord":
             r = ord(evaluate(t.args[0], env, memo))
+        elif op in ("m:lower", "m:upper", "m:strip", "m:rstrip", "m:lstrip", "m:startswith", "m:endswith"):
+            vals = [evaluate(a, env, memo) for a in t.args]
+            r = getattr(vals[0], op[2:])(*vals[1:])
+        elif op == "getslice" and len(t.args) == 3:
+            b, lo, hi = (evaluate(a, env, memo) for a in t.args)
+            r = b[lo:hi]
+        elif op == "getitem" and len(t.args) == 2 and not isinstance(t.args[0], Ref):
+            b, i = (evaluate(a, env, memo) for a in t.args)
+            r = b[i]
         elif op == "int" and len(t.args) == 1:
             r = int(evaluate(t.args[0], env, memo))
         else:
